@@ -16,7 +16,7 @@
 From Coq Require Import List NArith ZArith Bool.
 Import ListNotations.
 Require Import Aurora.Consts Aurora.C11.Model Aurora.C12.Model Aurora.C12.ProofsCi Aurora.C12.ProofsGc
-        Aurora.C12.ProofsHist Aurora.C12.Witness.
+        Aurora.C12.ProofsHist Aurora.C12.ProofsStep Aurora.C12.Witness.
 Local Open Scope N_scope.
 
 (** the mode numbers the correspondence decodes are the Go constants *)
@@ -117,6 +117,38 @@ Theorem C12_gc_protects_registered_files_partial :
     pin_get (ls (gc_run cat po cap x)) a = pin_get (ls x) a.
 Proof. exact gc_protects_thm. Qed.
 Print Assumptions C12_gc_protects_registered_files_partial.
+
+(** INTERLEAVINGS INSIDE A RUN.  The machine [gstep2] takes the eviction phase one DelFile call
+    at a time ([HGcStep root]); any operation may run after candidate selection, between two
+    calls and before the final section ([H1 GGcEnd], which finishes the remaining candidates).
+    A file TOUCHED after selection — a Set (any mode, any context) naming its root, or a
+    successful request-mode Get of the root or under its file context — before its own DelFile
+    call is not evicted by this run, whatever else happens in between: no item with its address
+    is among those whose root chunk, access entry and gc entry the final section deletes.
+    From every state with a run in progress (any candidates, tables, progress not yet holding the root). *)
+Theorem C12_touched_file_is_not_evicted :
+  forall cat po cap (x : sys) (p : gcprog) root o (h : list gop2),
+    s_gcrun (ls x) <> None ->
+    (forall kc, In kc (p_rec p) -> snd (fst kc) <> root) ->
+    touches root (ls x) o -> ls_call o = true ->
+    Forall (fun o' => o' <> H1 GGcEnd) h ->
+    let y := fold_left (fun z o' => fst (gstep2 cat po cap z o')) (H1 (GLs o) :: h) (x, p) in
+    forall kc, In kc (end_recycled cat y) -> snd (fst kc) <> root.
+Proof. exact touched_not_evicted. Qed.
+Print Assumptions C12_touched_file_is_not_evicted.
+
+(** ... but a pin that arrives AFTER the DelFile call of the file and before the final section is
+    lost: the run holds no lock in between, the batch deletes the chunks, the pin entries stay
+    (known finding); the same pin before the call saves the file. *)
+Theorem C12_pin_after_closure_refuted :
+  (let y := run2 2 (cacheA2 ++ [pinA; HGcStep rA; H1 GGcEnd]) in
+   data_has (ls (fst y)) x1 = true /\ pin_get (ls (fst y)) x1 = Some 1 /\ data_has (ls (fst y)) rA = true) /\
+  (let y0 := run2 2 (cacheA2 ++ [HGcStep rA; pinA]) in
+   let y := run2 2 (cacheA2 ++ [HGcStep rA; pinA; H1 GGcEnd]) in
+   data_has (ls (fst y0)) x1 = true /\ pin_get (ls (fst y0)) x1 = Some 1 /\
+   data_has (ls (fst y)) x1 = false /\ pin_get (ls (fst y)) x1 = Some 1).
+Proof. exact pin_before_and_after_closure. Qed.
+Print Assumptions C12_pin_after_closure_refuted.
 
 (** non-vacuity: two registered cached files sharing a chunk; the run evicts the older one,
     the shared chunk, pinned, keeps bytes and pin count; the exclusive chunk goes *)
